@@ -193,6 +193,7 @@ def run(harness, tier, seed, replay=None):
         else:
             cfgs = list(harness.configs(tier))
             seen = set()
+            dump = {}
             frontier = []
             # level 0
             lvl = run_items('bfs', [(c, []) for c in cfgs])
@@ -234,6 +235,8 @@ def run(harness, tier, seed, replay=None):
                     if fp is None:
                         stats['unmerged'] += 1
                     key = (ci, fp) if fp is not None else (ci, 'H' + _digest(hist))
+                    if os.environ.get('VERIF_DUMP_STATES'):
+                        dump[ci + json.dumps(hist)] = fp
                     if key in seen:
                         continue
                     seen.add(key)
@@ -245,6 +248,9 @@ def run(harness, tier, seed, replay=None):
                     break
             stats['states'] = len(seen)
             stats['samples'] = stats['samples'][:2] + stats['samples'][-2:]
+            if os.environ.get('VERIF_DUMP_STATES'):
+                with open(os.environ['VERIF_DUMP_STATES'], 'w') as f:
+                    json.dump(dump, f)
     finally:
         if pool is not None:
             pool.terminate()
